@@ -175,9 +175,7 @@ fn make_directed_proto(root: &Path, k: usize) -> Doc {
     schema.files.push(refmodel::schema::FileInfo { stem: "c0".into(), namespace: None, includes: vec![] });
     // a marker schema so that run_pbuild takes the protobuf path
     let ps = refmodel::pb::PSchema { proto3: true, package: None, msgs: vec![], enums: vec![], services: vec![] };
-    // compiles on the current tree: an ordinary document of the main batch (no collapse key)
-    let _ = key;
-    Doc { name: format!("directed_{}", name), schema, dir, collapse: None, raw_idl: Some(idl), proto: Some(ps) }
+    Doc { name: format!("directed_{}", name), schema, dir, collapse: Some(key), raw_idl: Some(idl), proto: Some(ps) }
 }
 
 struct BuildOut {
@@ -427,12 +425,21 @@ fn c14(ctx: &Ctx) -> i32 {
     // type-check everything the builder produced. Two crates: documents that are known to fail
     // (directed, recorded findings) are kept apart, because rustc stops after name-resolution
     // errors and would never report type errors of the other modules.
-    for (batch_name, want_directed) in [("c14batch", false), ("c14batch_directed", true)] {
-        let mods: Vec<(usize, usize, PathBuf)> = mods.iter().filter(|(d, _, _)| docs[*d].collapse.is_some() == want_directed).cloned().collect();
-        if mods.is_empty() {
-            continue;
+    // Every directed document gets a crate of its own for the same reason.
+    {
+        let main_mods: Vec<(usize, usize, PathBuf)> = mods.iter().filter(|(d, _, _)| docs[*d].collapse.is_none()).cloned().collect();
+        if !main_mods.is_empty() {
+            check_batch(ctx, &root, "c14batch", &main_mods, &docs, &cfgs, &mut report);
         }
-        check_batch(ctx, &root, batch_name, &mods, &docs, &cfgs, &mut report);
+        for d0 in 0..docs.len() {
+            if docs[d0].collapse.is_none() {
+                continue;
+            }
+            let m: Vec<(usize, usize, PathBuf)> = mods.iter().filter(|(d, _, _)| *d == d0).cloned().collect();
+            if !m.is_empty() {
+                check_batch(ctx, &root, &format!("c14batch_{}", docs[d0].name), &m, &docs, &cfgs, &mut report);
+            }
+        }
     }
     for k in ["struct", "union", "exception", "enum", "typedef", "const", "service", "oneway", "throws", "void-method", "list", "set", "map", "container-nesting-3", "include-2-files", "include-3-files", "namespace-rs", "field-default", "required", "optional", "default-requiredness", "self-recursion-optional-field", "struct-as-map-value", "struct-as-list-elem", "enum-as-field", "typedef-as-field", "union-as-field"] {
         report.floor(&format!("feature.{}", k), 1);
